@@ -168,8 +168,8 @@ func C15(x *Ctx, r *core.Result) {
 	r.Notes = append(r.Notes, "ValueReader fields: "+strings.Join(fields, " "))
 
 	a := r.Rule("R15a", "containers: ReadObject / ReadArray assign a fresh make to objVal / arrVal on every path before the traversal, hand the traversal the same reader as handler and return exactly that container")
-	x.containerFresh(r, a, "ValueReader.ReadObject", "objVal", "HandleObjectValues")
-	x.containerFresh(r, a, "ValueReader.ReadArray", "arrVal", "HandleArrayValues")
+	x.containerFresh(r, a, "ValueReader.ReadObject", x.fld("objVal"), "HandleObjectValues")
+	x.containerFresh(r, a, "ValueReader.ReadArray", x.fld("arrVal"), "HandleArrayValues")
 	r.CheckFloor(a, 2)
 
 	b := r.Rule("R15b", "who may write a container: element writes (map store, append) to objVal / arrVal happen only in the handler methods, which the library calls only from the traversal machines; no other function writes through these fields (returnValueReader only re-slices)")
@@ -188,7 +188,7 @@ func C15(x *Ctx, r *core.Result) {
 	r.CheckFloor(e, 3)
 
 	f := r.Rule("R15f", "every other field is a Buffer (C14) or the child pool; pooled children are re-initialised by the rules above when borrowed")
-	known := map[string]bool{"buf": true, "pool": true, "objVal": true, "arrVal": true, "fieldNameBuf": true, "stringBuf": true, "depth": true}
+	known := map[string]bool{x.fld("buf"): true, x.fld("pool"): true, x.fld("objVal"): true, x.fld("arrVal"): true, x.fld("fieldNameBuf"): true, x.fld("stringBuf"): true, x.fld("depth"): true}
 	_, _, hints := x.hintFields()
 	for i := 0; i < st.NumFields(); i++ {
 		f.Instances++
@@ -213,13 +213,21 @@ func init() { Registry["C15"] = Prop{"other", C15} }
 func (x *Ctx) containerWriters(r *core.Result, rs *core.RuleStat, st *types.Struct) {
 	w := x.W
 	allowed := map[string]string{
-		"ValueReader.ReadObject:objVal":        "make",
-		"ValueReader.ReadArray:arrVal":         "make",
-		"ValueReader.HandleObjectValue:objVal": "mapupdate",
-		"ValueReader.HandleArrayValue:arrVal":  "append",
-		"ValueReader.returnValueReader:arrVal": "reslice",
+		"ValueReader.ReadObject:" + x.fld("objVal"):        "make",
+		"ValueReader.ReadArray:" + x.fld("arrVal"):         "make",
+		"ValueReader.HandleObjectValue:" + x.fld("objVal"): "mapupdate",
+		"ValueReader.HandleArrayValue:" + x.fld("arrVal"):  "append",
+		"ValueReader.returnValueReader:" + x.fld("arrVal"): "reslice",
 	}
-	oi, ai := fieldIdx(st, "objVal"), fieldIdx(st, "arrVal")
+	// functions are named by their role (a renamed returnValueReader is still the pool's return function)
+	fnKey := func(fn *ssa.Function) string {
+		k := fnKey(fn)
+		if c := x.canon(fn); c != fn.Name() {
+			k = strings.TrimSuffix(k, fn.Name()) + c
+		}
+		return k
+	}
+	oi, ai := fieldIdx(st, x.fld("objVal")), fieldIdx(st, x.fld("arrVal"))
 	for _, fn := range w.SrcFuncs() {
 		for _, b := range fn.Blocks {
 			for _, ins := range b.Instrs {
